@@ -123,6 +123,7 @@ def check(ctx) -> None:
     r134(ctx, table)
     r135(ctx)
     r136(ctx)
+    r137(ctx)
 
 
 def r131(ctx, f, table) -> None:
@@ -418,3 +419,85 @@ def r136(ctx) -> None:
         R.fail(f, f.node, 'do_search: both reporting modes present',
                'do_search does not distinguish UID SEARCH from SEARCH when '
                'reporting results')
+
+
+def r137(ctx) -> None:
+    R = ctx.rule('R13.7', 'sequence-set keys and compound requirements', 4)
+    c = ctx.proj.cls(SEARCH, 'SequenceSetSearchCriteria')
+    f = c.own_method('__init__')
+    cfg = cfg_of(f)
+    good = {'uid': False, 'seq': False}
+    bad = []
+    for n in cfg.stmt_nodes():
+        for x in n.calls():
+            if call_name(x) != 'flatten' or not x.args:
+                continue
+            arg = txt(x.args[0])
+            br = None
+            for t in cfg.nodes:
+                if t.kind == 'test':
+                    for a, pol in guard_atoms(t.stmt.test):
+                        if a.endswith('.uid'):
+                            if cfg.controlled_by(n, t, 't'):
+                                br = 'uid' if pol else 'seq'
+                            elif cfg.controlled_by(n, t, 'f'):
+                                br = 'seq' if pol else 'uid'
+            if br == 'uid' and arg.endswith('max_uid'):
+                good['uid'] = True
+            elif br == 'seq' and arg.endswith('max_seq'):
+                good['seq'] = True
+            else:
+                bad.append(f'{br or "unconditional"}: flatten({arg})')
+    R.check(all(good.values()) and not bad, f, f.node,
+            'SequenceSetSearchCriteria: * = max_uid for UID sets, max_seq '
+            'for sequence sets',
+            f'{bad or "flatten calls not found under a .uid test"}: in a '
+            f'plain sequence set "*" expands to the highest UID instead of '
+            f'EXISTS, so SEARCH * / n:* disagree with the pre-filter')
+    sp = ctx.proj.cls(SEARCH, 'SearchParams').own_method('__init__')
+    src = {}
+    for s_ in walk_local(sp.node):
+        for t in targets_of(s_):
+            if isinstance(t, ast.Attribute) and t.attr in ('max_seq',
+                                                           'max_uid'):
+                src[t.attr] = txt(getattr(s_, 'value', None))
+    R.check(src.get('max_seq', '').endswith('messages.exists') and
+            src.get('max_uid', '').endswith('messages.max_uid'), sp, sp.node,
+            'SearchParams: max_seq = exists, max_uid = max_uid of the view',
+            f'SearchParams takes its bounds from {src}')
+    # compound keys need the UNION of their parts' requirements
+    sk = ctx.proj.cls(SKEY, 'SearchKey')
+    req = sk.own_method('requirement')
+    for t in walk_local(req.node):
+        if not isinstance(t, ast.If):
+            continue
+        ks = _key_consts(t.test, 'key_name') or _key_consts(t.test,
+                                                            'self.key')
+        for k in ks:
+            if k not in (b'OR', b'KEYSET'):
+                continue
+            rets = [s_ for s_ in t.body if isinstance(s_, ast.Return)]
+            ok = False
+            why = 'no return'
+            for r in rets:
+                for v in resolve_local(req, r.value):
+                    if isinstance(v, ast.Call) and call_name(v) == 'reduce':
+                        ok = True
+                        if k == b'OR' and v.args:
+                            inner = ' '.join(txt(x) for x in
+                                             resolve_local(req, v.args[0]))
+                            parts = [p for p in ('left', 'right')
+                                     if p + '.requirement' in inner]
+                            ok = len(parts) == 2
+                            why = f'reduce over {inner}'
+                    elif isinstance(v, ast.BinOp) and \
+                            isinstance(v.op, ast.BitOr):
+                        ok = True
+                    else:
+                        why = f'returns `{txt(v)}`'
+            R.check(ok, req, t, f'requirement of {k.decode()} is the union '
+                    f'of its parts',
+                    f'{why}: not the flag union of the sub-keys\' '
+                    f'requirements — with a metadata-only left operand the '
+                    f'right operand is evaluated against content that was '
+                    f'never loaded (maildir: OR SEEN BODY x misses)')
